@@ -390,7 +390,7 @@ pub fn par_cases<C: Sync, F: Fn(usize, &C) -> CaseOut + Sync>(cases: &[C], f: F)
         }
         return o;
     }
-    let chunk = (cases.len() / 4096).max(1);
+    let chunk = (cases.len() / 65536).max(1);
     let outs: Vec<CaseOut> = cases
         .par_chunks(chunk)
         .enumerate()
